@@ -105,6 +105,11 @@ def TS.kindName : TS → String
 
 /-- Core variants the model descends into (compared with the regenerated arms of the Rust functions) -/
 def modelDescends : List String := ["Block", "IfElse", "Match", "Case", "TryExcept", "ExceptId", "Except"]
+/-- per variant, the children the model transforms (`appendAssign` and `appendRet` alike): the last statement of a
+    block, both branches, every case, the case body, the attempt and every handler, the handler body -/
+def modelChildren : List (String × List String) :=
+  [("Block", ["last"]), ("IfElse", ["then", "el"]), ("Match", ["cases"]), ("Case", ["body"]),
+   ("TryExcept", ["attempt", "except"]), ("ExceptId", ["body"]), ("Except", ["body"])]
 def modelAssignSkips : List String := ["Return", "Raise", "VarDef", "Assign"]
 def modelRetSkips : List String := ["Return", "Raise"]
 
